@@ -437,8 +437,12 @@ def other_methods(R):
             lines.append(ml); lines.append("clr")
             shift = rng.choice([0, 12, 16, 21])
             valsz = rng.choice([4, 8])
-            lines.append("meth memarr %d %d %d %d %d %d" % (rng.choice([0, 1]), rng.choice([0, 1, 2]), rng.getrandbits(30) & ~0xfff, shift, valsz, valsz))
-            addrs = [rng.getrandbits(rng.choice([20, 30, 40])) for _ in range(3)] + [0]
+            # the array element may be larger than the value read from it (records whose first field is the
+            # frame number) or smaller (packed/overlapping); the stride is elemsz, the read width valsz
+            elemsz = rng.choice([valsz, valsz, 2 * valsz, 3 * valsz, 4 * valsz, 8, 16, 24])     # multiples of valsz: reads stay aligned
+            lines.append("meth memarr %d %d %d %d %d %d" % (rng.choice([0, 1]), rng.choice([0, 1, 2]), rng.getrandbits(30) & ~0xfff, shift, elemsz, valsz))
+            # array indices 0, 1, 2 and large ones
+            addrs = [rng.getrandbits(rng.choice([20, 30, 40])) for _ in range(3)] + [0, (1 << shift) + rng.getrandbits(shift), (2 << shift) | rng.getrandbits(shift)]
         for a in addrs:
             lines.append("walk %d" % (a % W))
     return lines
